@@ -73,6 +73,7 @@ func corpusGraph() []*modSpec {
 		mk("graph-generic-named-containers", "package models\n\nimport \"example.com/org/models/lib\"\n\ntype S struct {\n\tA List[int]\n\tB List[string]\n\tC Dict[bool]\n\tD Pair[int]\n\tE lib.List[int]\n\tF lib.Dict[string]\n\tG []List[int]\n}\n",
 			modFile{"other.go", "package models\n\ntype List[T any] []T\n\ntype Dict[V any] map[string]V\n\ntype Pair[T any] [2]T\n"},
 			modFile{"lib/lib.go", "package lib\n\ntype List[T any] []T\n\ntype Dict[V any] map[string]V\n"}),
+		mk("graph-aliases-in-the-analysed-file", "package models\n\ntype Point struct{ X, Y int }\n\ntype Coord = Point\n\ntype Ids = []int64\n\ntype Label = string\n\ntype S struct {\n\tC Coord\n\tI Ids\n\tL Label\n}\n"),
 		mk("graph-self-recursive", "package models\n\ntype Tree struct {\n\tChildren []Tree\n\tByName map[string]Tree\n\tPair [2]*Tree\n}\n"),
 		mk("graph-mutual", "package models\n\ntype A struct{ Bs []B }\ntype B struct{ As map[int]A; Self []B }\n"),
 		mk("graph-recursive-containers", "package models\n\ntype Tree map[string]Tree\ntype MA map[string]MB\ntype MB map[int]MA\ntype Nest []Nest\ntype Deep map[string][]Deep\ntype Grid [2]Cells\ntype Cells []Grid\n\ntype S struct {\n\tT Tree\n\tA MA\n\tN Nest\n\tD Deep\n\tG Grid\n}\n"),
@@ -119,6 +120,8 @@ func corpusCrash() []*modSpec {
 	}
 	std := "example.com/org/models"
 	return []*modSpec{
+		mk("alias-declared-in-the-analysed-file", std, "models", "type Point struct{ X, Y int }\n\ntype Coord = Point\n\ntype Ids = []int64\n\ntype Label = string\n\ntype S struct {\n\tC Coord\n\tI Ids\n\tL Label\n}\n"),
+		mk("alias-of-an-imported-type", std, "models", "import \"example.com/org/models/sub\"\n\ntype T = sub.T\n\ntype E = sub.E\n\ntype S struct {\n\tV T\n\tK E\n}\n", modFile{"sub/sub.go", "package sub\n\ntype T struct{ X int }\n\ntype E int\n\nconst (\n\tEA E = iota\n\tEB\n)\n"}),
 		mk("one-letter-union", std, "models", "type U interface{ isU() }\ntype A struct{ X int }\nfunc (A) isU() {}\ntype S struct{ V U }\n"),
 		mk("two-letter-union", std, "models", "type Un interface{ isU() }\ntype A struct{ X int }\nfunc (A) isU() {}\ntype S struct{ V Un }\n"),
 		mk("short-subpackage-name", std, "models", "import \"example.com/org/models/ab\"\n\ntype S struct{ V ab.T; L []ab.T }\n", modFile{"ab/ab.go", "package ab\n\ntype T struct{ X int }\n"}),
